@@ -14,6 +14,9 @@
 
 #include "libcellml/annotator.h"
 #include "libcellml/component.h"
+#include "libcellml/importsource.h"
+#include "libcellml/printer.h"
+#include "libcellml/reset.h"
 #include "libcellml/model.h"
 #include "libcellml/units.h"
 #include "libcellml/variable.h"
@@ -44,8 +47,89 @@ static void collect(const ModelPtr &m, std::multiset<std::string> &ids)
     }
 }
 
+// Printer::printModel(model, true): every id="..." of the printed document is unique when the model's own ids are,
+// and the model itself is not modified.  Models include imported components with locally defined children, resets,
+// units with import sources and unit children, equivalences with mapping / connection ids.
+static int printIds(unsigned seed, long n)
+{
+    rng.seed(seed);
+    auto printer = Printer::create();
+    for (long t = 0; t < n; ++t) {
+        int next = 0xb4da55;
+        auto autoId = [&]() { char b[16]; snprintf(b, sizeof(b), "%x", next++); return std::string(b); };
+        auto maybe = [&]() { return rng() % 3 == 0; };
+        auto m = Model::create("m");
+        if (maybe()) m->setId(autoId());
+        if (maybe()) m->setEncapsulationId(autoId());
+        auto u = Units::create("u");
+        u->addUnit("second");
+        if (maybe()) u->setUnitId(0, autoId());
+        if (maybe()) u->setId(autoId());
+        if (maybe()) { auto is = ImportSource::create(); is->setUrl("x.cellml"); if (maybe()) is->setId(autoId()); u->setImportSource(is); u->setImportReference("r"); }
+        m->addUnits(u);
+        std::vector<ComponentPtr> comps;
+        std::vector<VariablePtr> vars;
+        int nc = 1 + rng() % 4;
+        for (int i = 0; i < nc; ++i) {
+            auto c = Component::create("c" + std::to_string(i));
+            if (maybe()) c->setId(autoId());
+            if (maybe()) c->setEncapsulationId(autoId());
+            if (maybe()) { auto is = ImportSource::create(); is->setUrl("y.cellml"); if (maybe()) is->setId(autoId()); c->setImportSource(is); c->setImportReference("cr"); }
+            if (i == 0 || rng() % 2) m->addComponent(c); else comps[rng() % comps.size()]->addComponent(c);
+            comps.push_back(c);
+            int nv = rng() % 3;
+            for (int j = 0; j < nv; ++j) {
+                auto v = Variable::create("v" + std::to_string(vars.size()));
+                v->setUnits("second");
+                if (maybe()) v->setId(autoId());
+                c->addVariable(v);
+                vars.push_back(v);
+            }
+            if (c->variableCount() && maybe()) {
+                auto r = Reset::create();
+                r->setVariable(c->variable(0));
+                r->setTestVariable(c->variable(0));
+                r->setOrder(1);
+                if (maybe()) r->setId(autoId());
+                if (maybe()) r->setTestValueId(autoId());
+                if (maybe()) r->setResetValueId(autoId());
+                c->addReset(r);
+            }
+        }
+        for (int e = 0; e < 2 && vars.size() > 1; ++e) {
+            auto a = vars[rng() % vars.size()], b = vars[rng() % vars.size()];
+            if (a != b && a->parent() != b->parent()) {
+                Variable::addEquivalence(a, b);
+                if (maybe()) Variable::setEquivalenceMappingId(a, b, autoId());
+                if (maybe()) Variable::setEquivalenceConnectionId(a, b, autoId());
+            }
+        }
+        std::string plainBefore = printer->printModel(m, false);
+        std::string out = printer->printModel(m, true);
+        if (printer->printModel(m, false) != plainBefore) {
+            printf("PRINTIDS violates=1 what=printModel(model, true) modified the model (model %ld)\n", t);
+            return 0;
+        }
+        std::multiset<std::string> ids;
+        size_t pos = 0;
+        while ((pos = out.find(" id=\"", pos)) != std::string::npos) {
+            size_t e = out.find('"', pos + 5);
+            ids.insert(out.substr(pos + 5, e - pos - 5));
+            pos = e;
+        }
+        for (auto &i : ids)
+            if (ids.count(i) > 1) {
+                printf("PRINTIDS violates=1 what=printModel(model, true) wrote the id '%s' %zu times although every id of the model was unique (model %ld)\n", i.c_str(), ids.count(i), t);
+                return 0;
+            }
+    }
+    printf("PRINTIDS violates=0 models=%ld\n", n);
+    return 0;
+}
+
 int main(int argc, char **argv)
 {
+    if (argc >= 2 && !strcmp(argv[1], "printids")) return printIds(argc > 2 ? unsigned(atol(argv[2])) : 0, argc > 3 ? atol(argv[3]) : 1500);
     if (argc < 2 || strcmp(argv[1], "fuzz")) return 2;
     rng.seed(argc > 2 ? unsigned(atol(argv[2])) : 0);
     long n = argc > 3 ? atol(argv[3]) : 1500;
@@ -81,8 +165,18 @@ int main(int argc, char **argv)
         }
         std::multiset<std::string> before;
         collect(m, before);
-        int op = rng() % 3;
-        if (op == 0) a->assignAllIds();
+        int op = rng() % 4;
+        std::string replaced; // op 3: the identifier that assignId() replaces on an item that already has one
+        if (op == 3) {
+            int k = rng() % 4;
+            if (k == 0 && !vars.empty()) { auto v = vars[rng() % vars.size()]; replaced = v->id(); a->assignId(v); }
+            else if (k == 1) { auto c = comps[rng() % comps.size()]; replaced = c->id(); a->assignId(c); }
+            else if (k == 2) { if (rng() % 2) u->setId("units_id"); if (rng() % 2) a->ids(); replaced = u->id(); a->assignId(u); }
+            else { if (rng() % 2) u->setUnitId(0, "unit_id"); if (rng() % 2) a->ids(); replaced = u->unitId(0); a->assignId(u, 0); }
+            before.clear();
+            collect(m, before);     // compare with the state after the replacement: nothing ELSE may change (checked below by the lookups)
+        }
+        else if (op == 0) a->assignAllIds();
         else if (op == 1) a->assignIds(rng() % 2 ? CellmlElementType::VARIABLE : CellmlElementType::COMPONENT);
         else if (!vars.empty()) { auto v = vars[rng() % vars.size()]; if (v->id().empty()) a->assignId(v); }
         std::multiset<std::string> after;
